@@ -364,7 +364,7 @@ var classes = []struct {
 	{"plain", 36}, {"css", 12}, {"css-order", 4}, {"style-after-attr", 4}, {"css-vs-style", 3},
 	{"dash", 6}, {"dash-sw", 4},
 	{"style-before-attr", 3}, {"css-vs-attr", 3}, {"css-specificity", 3}, {"css-on-ancestor", 3}, {"css-id", 3},
-	{"skew", 3}, {"fill-rule", 3}, {"rx-ry", 3}, {"viewbox-origin", 3}, {"miterlimit", 3}, {"fit", 2}, {"err", 2},
+	{"bare-group", 6}, {"skew", 3}, {"fill-rule", 3}, {"rx-ry", 3}, {"viewbox-origin", 3}, {"miterlimit", 3}, {"fit", 2}, {"err", 2},
 }
 
 func genDoc(c *hc.Ctx) *Doc {
@@ -688,6 +688,79 @@ func genDocClass(c *hc.Ctx, class string) *Doc {
 			s.Attrs = append(s.Attrs, a2, a1)
 			d.Features["style-before-attr"] = true
 		}
+	case class == "bare-group":
+		// attribute-less containers styled only by the style sheet (type / descendant / universal
+		// selectors), nested, each followed by sibling shapes that must keep the outer paint: the element
+		// with zero attributes still needs its own saved state (state_balanced)
+		d.Probes = map[*Node]bool{}
+		probe := func() *Node {
+			n := g.shape()
+			if c.Chance(0.3) {
+				n.Attrs = append(n.Attrs, Attr{Key: "transform", V: g.transform(false)})
+			}
+			d.Probes[n] = true
+			return n
+		}
+		inner := func() *Node { // a shape inside a container; may declare properties no rule sets
+			n := g.shape()
+			if c.Chance(0.4) {
+				n.Attrs = append(n.Attrs, Attr{Key: "stroke-linejoin", V: g.propVal("stroke-linejoin")})
+			}
+			return n
+		}
+		var container func(depth int) *Node
+		container = func(depth int) *Node {
+			n := &Node{Tag: "g"}
+			if c.Chance(0.2) {
+				n.Attrs = []Attr{{Key: "transform", V: g.transform(false)}} // not bare: the other branch
+				c.Count("bare-group:with-transform")
+			} else {
+				c.Count(fmt.Sprintf("bare-group:bare-depth-%d", depth))
+			}
+			if c.Chance(0.7) {
+				n.Kids = append(n.Kids, inner())
+			}
+			if depth < 3 && c.Chance(0.6) {
+				n.Kids = append(n.Kids, container(depth+1))
+				n.Kids = append(n.Kids, probe()) // after the nested container, inside this one
+			}
+			if len(n.Kids) == 0 || c.Chance(0.3) {
+				n.Kids = append(n.Kids, inner())
+			}
+			return n
+		}
+		variant := c.Intn(6)
+		sel := func(sn ...SelNode) []Selector { return []Selector{Selector(sn)} }
+		G, ANY := SelNode{Typ: "g"}, SelNode{Typ: "*"}
+		var rs []Rule
+		switch variant {
+		case 0:
+			rs = []Rule{{Sels: sel(G), Props: []Prop{{"fill", g.colourVal()}}}}
+		case 1:
+			rs = []Rule{{Sels: sel(G), Props: []Prop{{"fill", g.colourVal()}}}, {Sels: sel(G, G), Props: []Prop{{"stroke", g.colourVal()}}}}
+		case 2:
+			rs = []Rule{{Sels: sel(G), Props: []Prop{{"stroke", g.colourVal()}, {"stroke-width", Val{K: 'D', Num: float64(2 + c.Intn(3))}}}}}
+		case 3:
+			rs = []Rule{{Sels: sel(G, ANY), Props: []Prop{{"fill", g.colourVal()}}}}
+		case 4:
+			rs = []Rule{{Sels: sel(ANY), Props: []Prop{{"stroke-linecap", kw("round")}}}, {Sels: sel(G), Props: []Prop{{"fill", g.colourVal()}}}}
+		case 5:
+			rs = []Rule{{Sels: sel(G, SelNode{Child: true, Typ: "g"}), Props: []Prop{{"fill", g.colourVal()}}}, {Sels: sel(G), Props: []Prop{{"stroke", g.colourVal()}}}}
+		}
+		c.Count(fmt.Sprintf("bare-group:variant-%d", variant))
+		root.Attrs = nil
+		if c.Chance(0.3) {
+			root.Attrs = []Attr{{Key: "fill", V: g.colourVal()}} // the outer paint the probes must keep
+		}
+		kids := []*Node{{Tag: "style", Rules: rs}}
+		if c.Bool() {
+			kids = append(kids, probe())
+		}
+		kids = append(kids, container(1), probe())
+		if c.Chance(0.4) {
+			kids = append(kids, container(1), probe())
+		}
+		root.Kids = kids
 	case class == "fill-rule":
 		s := pickShape()
 		forceAttr(s, "fill-rule", kw("evenodd"), c.Bool())
